@@ -20,6 +20,8 @@ import OFV.Proofs.C10Filter
 import OFV.Proofs.C10Sum
 import OFV.Proofs.C10Expect
 import OFV.Proofs.C10Su2
+import OFV.Proofs.C10Su2b
+import OFV.Proofs.C10Restrict
 
 namespace OFV.C10
 open OFV.Model OFV.Model.C10 OFV.Spec OFV.Spec.C10
@@ -78,6 +80,36 @@ theorem number_indices_matrix_sector (tol : Rat) (n k : Nat) (htol : GQ.isSmall 
     have := congrArg GQ.re h
     simp only [natMul, GQ.one_re, Rat.mul_one] at this
     exact_mod_cast this
+
+/-- **restrict_is_projection** (`jw_number_restrict_operator`): let `M` be the matrix of the fermion operator `A` in the
+`get_sparse_operator` convention (`M[a][b] = ⟨a| A |b⟩` with big-endian indices, `maskOfIndex`).  Then
+`M[ix_(I, I)]` with `I = jw_number_indices(k, n)` is an `|I| x |I|` matrix whose entry `(p, q)` is the Spec matrix element
+of `A` between the `p`-th and `q`-th listed basis states, each of which has particle number `k`; with
+`number_indices_spec` (every weight-`k` state listed exactly once) it is the compression of `A` to the `k`-particle
+sector, in list order. -/
+theorem number_restrict_is_compression (A : Op) (n k : Nat) (M : List (List GQ))
+    (hM : ∀ a b, a < 2 ^ n → b < 2 ^ n → (M.getD a []).getD b 0 = melF A (maskOfIndex n a) (maskOfIndex n b)) :
+    (restrictOp M (jwNumberIndices k n)).length = (jwNumberIndices k n).length ∧
+    (∀ row ∈ restrictOp M (jwNumberIndices k n), row.length = (jwNumberIndices k n).length) ∧
+    ∀ p q, p < (jwNumberIndices k n).length → q < (jwNumberIndices k n).length →
+      ((restrictOp M (jwNumberIndices k n)).getD p []).getD q 0 =
+        melF A (maskOfIndex n ((jwNumberIndices k n).getD p 0)) (maskOfIndex n ((jwNumberIndices k n).getD q 0)) ∧
+      countBelow (maskOfIndex n ((jwNumberIndices k n).getD p 0)) n = k := by
+  obtain ⟨s1, s2⟩ := restrictOp_shape M (jwNumberIndices k n)
+  refine ⟨s1, s2, ?_⟩
+  intro p q hp hq
+  have mem : ∀ r, r < (jwNumberIndices k n).length → (jwNumberIndices k n).getD r 0 ∈ jwNumberIndices k n := by
+    intro r hr
+    rw [List.getD_eq_getElem?_getD, List.getElem?_eq_getElem hr]; exact List.getElem_mem hr
+  have hp' := (mem_numberIndices n k _).mp (mem p hp)
+  have hq' := (mem_numberIndices n k _).mp (mem q hq)
+  rw [restrictOp_entry M _ p q hp hq, hM _ _ hp'.1 hq'.1, popcount_maskOfIndex]
+  exact ⟨rfl, hp'.2⟩
+
+/-- the restricted state `state[I]` has the entries of the state at the listed indices, in list order -/
+theorem restrict_state_entries (v : List GQ) (idx : List Nat) (p : Nat) (hp : p < idx.length) :
+    (restrictState v idx).length = idx.length ∧ (restrictState v idx).getD p 0 = v.getD (idx.getD p 0) 0 :=
+  restrictState_entry v idx p hp
 
 /-! ## jw_sz_indices
 
@@ -210,6 +242,24 @@ theorem sx_sy_ladder (sites t s : Nat) :
       (-(Model.C10.half * GQ.I)) * melF (sPlus 0 sites) t s + (Model.C10.half * GQ.I) * melF (sMinus 0 sites) t s := by
   simp only [melF_den]
   exact ⟨den_sx sites s t, den_sy sites s t⟩
+
+/-- the docstring formulas `s_plus_operator(n) = Σ_i a†_{up i} a_{down i}`, `s_minus_operator(n) = Σ_i a†_{down i} a_{up i}`:
+the Model operators built with `+=` have the Spec matrix elements of these sums, for every number of sites. -/
+theorem s_plus_s_minus_formula (sites t s : Nat) :
+    melF (sPlus 0 sites) t s =
+      melF ((List.range sites).map fun i => ([(upIndex i, 1), (downIndex i, 0)], (1 : GQ))) t s ∧
+    melF (sMinus 0 sites) t s =
+      melF ((List.range sites).map fun i => ([(downIndex i, 1), (upIndex i, 0)], (1 : GQ))) t s :=
+  ladder_formulas sites t s
+
+/-- **`[S^z, S^±] = ±S^±`** for the Model operators, every number of sites: `sz_operator` is diagonal with eigenvalue
+`szEig n s = (#up - #down)/2`, and `(σ(t) - σ(s)) ⟨t|S^+|s⟩ = ⟨t|S^+|s⟩`, `(σ(t) - σ(s)) ⟨t|S^-|s⟩ = -⟨t|S^-|s⟩` for all
+basis states (the matrix elements of the commutators, as `S^z` is diagonal): `S^+` raises and `S^-` lowers `S^z` by one. -/
+theorem sz_ladder_commutators (n t s : Nat) :
+    (melF (Model.C10.sz 0 n) t s = if t = s then szEig n s else 0) ∧
+    (szEig n t - szEig n s) * melF (sPlus 0 n) t s = melF (sPlus 0 n) t s ∧
+    (szEig n t - szEig n s) * melF (sMinus 0 n) t s = -melF (sMinus 0 n) t s :=
+  ⟨melF_sz_eig n t s, sz_splus_comm n t s, sz_sminus_comm n t s⟩
 
 /-- `s_squared_operator = S^- S^+ + S^z (S^z + 1)` as an operator, for every number of sites: its matrix element is
 the composition (right factor first; `Sem.sumF b s W` applies the terms of `b` to `|s⟩` with the Spec action and
